@@ -720,7 +720,6 @@ func checkRouting(r *Report, p *Prog, rule string) {
 	expectAP(r, rule, pb, a.Ctx(pb), modPath, "IdpAuthnRequestForm", "URL", "IdpAuthnRequest.ACSEndpoint.Location", "the selected registered endpoint")
 }
 
-
 // helperLitFields: assignments of typ.field inside library functions that fn calls and whose first result is (a pointer
 // to) typ - a composite literal factored out into a constructor helper.
 func helperLitFields(p *Prog, fn *ssa.Function, pkg, typ, field string) []*ssa.Store {
